@@ -27,3 +27,31 @@ Definition api_cjson_start (s : start_t) : list byte := cjson (json_start s).
 Definition api_cjson_end (e : end_t) : list byte := cjson (json_end e).
 Definition api_cjson_meta (m : utree) : list byte := cjson (jv_of_utree m).
 Definition api_game_version (g : game) : version := st_version (g_start g).
+
+From Peppi Require Import Model.Recorder.
+Definition api_emit (r : replay) : list byte := emit r.
+Definition api_wf (r : replay) : bool := wf_replay r.
+Definition api_game_of (skip hash : bool) (r : replay) : option game :=
+  match game_start (r_start r) with
+  | ROk st =>
+      let en := match end_blk r with
+                | Some b => match game_end b with ROk e => Some e | _ => None end
+                | None => None
+                end in
+      Some (game_of {| o_skip := skip; o_hash := hash |} r st en)
+  | _ => None
+  end.
+Definition api_read_map (bs : list byte) := read_map bs.
+Definition api_mk_replay (start : list byte) (g : option gecko_t) (fs : list aframe) (e : aend) (m : option utree) : replay :=
+  {| r_start := start; r_gecko := g; r_frames := fs; r_end := e; r_meta := m |}.
+Definition api_mk_frame (id : Z) (st : list byte) (cs : list achar) (its : list (list byte)) (en : list byte) : aframe :=
+  {| af_id := id; af_start := st; af_chars := cs; af_items := its; af_end := en |}.
+Definition api_mk_char (p : N) (f : bool) (pre post : list byte) : achar :=
+  {| ac_port := p; ac_fol := f; ac_pre := pre; ac_post := post |}.
+Definition api_mk_gecko (b : list byte) (a : N) : gecko_t := {| gk_bytes := b; gk_actual := a |}.
+
+From Peppi Require Import Model.Rollbacks Model.ShiftJis.
+Definition api_rollbacks (first : bool) (ids : list Z) := rollbacks (if first then ExceptFirst else ExceptLast) ids.
+Definition api_fix_char (c : N) : N := fix_char_u32 c.
+Definition api_is_scalar (c : N) : bool := is_scalar c.
+Definition api_melee_string (bs : list byte) := melee_string bs.
